@@ -12,7 +12,7 @@ ROOT = os.path.dirname(HERE)
 WORK = os.path.join(ROOT, 'work')
 CRATE = os.path.join(ROOT, 'c18')
 
-HARNESSES = ['kmer_bincode_dna_k1', 'kmer_bincode_dna_k8', 'kmer_bincode_dna_k32', 'kmer_bincode_iupac_k16',
+HARNESSES = ['kmer_bincode_dna_k1', 'kmer_bincode_dna_k8', 'kmer_bincode_dna_k17', 'kmer_bincode_dna_k32', 'kmer_bincode_iupac_k16',
              'kmer_bincode_dna_k32_u64', 'kmer_bincode_dna_k64_u128', 'kmer_bincode_iupac_k32_u128']
 
 
